@@ -91,6 +91,11 @@ func propC05(c *Ctx) {
 	rf := c.Rule("fold-guard", "every integer / % and signed shift in the optimizer's constant-folding code is dominated by a zero / sign test of the divisor / count (otherwise Compile panics on a constant expression such as 1 % 0)", 2)
 	ruleArithGuard(c, rf, optimizerFuncs(c))
 
+	rrb := c.Rule("rollback-boundary", "rolling the module store back to a count removes exactly the entries whose index is >= that count", 1)
+	ruleRollbackBoundary(c, rrb)
+	rfx := c.Rule("fixpoint-reset", "the optimizer's pass loop resets, inside the loop, the change counter whose being zero ends it: the number of passes does not grow with the budget (Compile terminates whatever OptimizerLimit is)", 1)
+	ruleFixpointReset(c, rfx)
+
 	// ---- cap-check ----------------------------------------------------------------
 	rc := c.Rule("cap-check", "wherever compiled Bytecode leaves the compiler with a nil error (script, imported module, function literal), every such return is dominated by the NumLocals limit comparison made on that very Bytecode's Main function, on the not-exceeding side", 3)
 	bcFn := l.Method(modPath, "Compiler", "Bytecode")
